@@ -157,9 +157,10 @@ func (e *Env) DeleteGlobal(symbol string) {
 // Addr returns reflect.Addr of value for first matching symbol found in current or parent scope.
 func (e *Env) Addr(symbol string) (reflect.Value, error) {
 	e.rwMutex.RLock()
-	defer e.rwMutex.RUnlock()
+	v, ok := e.values[symbol]
+	e.rwMutex.RUnlock()
 
-	if v, ok := e.values[symbol]; ok {
+	if ok {
 		if v.CanAddr() {
 			return v.Addr(), nil
 		}
